@@ -68,6 +68,7 @@ Logged ==
     \/ IsEvent("WriteReq") /\ cur[Ev.c] = Ev.x /\ WriteReq(Ev.c)
     \/ IsEvent("WriteRet") /\ cur[Ev.c] = Ev.x /\ IF Ev.ok THEN WriteOk(Ev.c) ELSE WriteErr(Ev.c)
     \/ IsEvent("ReadRet") /\ Ev.k = "reply" /\ srvq[Ev.x] # None /\ srvq[Ev.x][1] = Ev.c /\ ServerReply(Ev.x)
+    \/ IsEvent("ReadRet") /\ Ev.k = "surplus" /\ Surplus(Ev.x)
     \/ IsEvent("ReadRet") /\ Ev.k = "err" /\ ReadFail(Ev.x, "err")
     \/ IsEvent("ReadRet") /\ Ev.k = "timeout" /\ armed[Ev.x] = Ev.armed /\ ReadFail(Ev.x, "timeout")
     \/ IsEvent("SetReadDeadline") /\ ArmIdle(Ev.x, Ev.k)
